@@ -154,10 +154,12 @@ fn drop_probe<T>(v: T, use_it: impl FnOnce(&T)) -> Out {
     let mut slot = ManuallyDrop::new(v);
     use_it(&slot);
     let n = std::mem::size_of::<T>();
-    let p = &mut *slot as *mut T as *mut u8;
+    // one raw pointer for everything that follows (no fresh reference may be created after it)
+    let raw: *mut T = &mut *slot;
+    let p = raw as *mut u8;
     let read = |p: *mut u8| -> Vec<u8> { (0..n).map(|i| unsafe { std::ptr::read_volatile(p.add(i)) }).collect() };
     let before = read(p);
-    unsafe { std::ptr::drop_in_place(&mut *slot as *mut T) };
+    unsafe { std::ptr::drop_in_place(raw) };
     let after = read(p);
     vec![hex(&before), hex(&after)]
 }
